@@ -119,7 +119,7 @@ def run(ctx):
     if f:
         T = tpl.Templates(f)
         txt = " | ".join(T.text(s) for s in T.root_streams())
-        ok = txt == "⟨proc_macro2::Ident⟩ = ⟨alt __errors . handle ( ⟨syn::path::Path⟩ ( __fwd_attrs ) ) | :: darling :: export :: Some ( __fwd_attrs ) ⟩ ;"
+        ok = txt == "⟨proc_macro2::Ident⟩ = ⟨alt __errors . handle ( ⟨syn::path::Path⟩ ( __fwd_attrs ) ) ¦ :: darling :: export :: Some ( __fwd_attrs ) ⟩ ;"
         ctx.ob("C08.H.forward-populator", f.key, "attrs = Some(__fwd_attrs) | handle(with(__fwd_attrs))", ok, txt)
     # the buffers that live across attributes (__flatten, __fwd_attrs) are only ever pushed to by the per-list / per-attribute code
     common.buffers_only_pushed(ctx, "C08.H.cross-attribute-buffers-only-pushed")
